@@ -415,8 +415,62 @@ def report(ctx, case, detail):
     ctx["out"].violation(small, {"detail": d, "original_case": case})
 
 
+def stress_cases():
+    """two large inputs whose closure is known in closed form (labelled TESTS of the termination clause: the
+    expected result is what rule 1 gives step by step; no Lean oracle at this size).
+    deep: the pattern of a long compelled chain with a reversible edge x - y below it => the chain is oriented
+    forward, x - y stays.  ladder: 40 two-node levels, every node pointing to both nodes of the next level (2^40
+    directed paths), both bottom nodes pointing to x and y, x - y reversible => nothing changes."""
+    N = 1200
+    # pattern of  a -> 1 <- b, 1 -> 2 -> ... -> N, N -> x, N -> y, x -> y : the reversible edge x - y sits below a
+    # directed path that is N edges deep (rule 2 looks at ancestors / descendants there)
+    chain = [(i, i + 1) for i in range(1, N)] + [(N, "x"), (N, "y")]
+    deep = {"D": [("a", 1), ("b", 1)], "U": chain + [("x", "y")], "expectD": chain, "expectU": [("x", "y")]}
+    D = []
+    for i in range(40):
+        for p in ("p", "q"):
+            for q in ("p", "q"):
+                D.append(((p, i), (q, i + 1)))
+    D += [(("p", 40), "x"), (("q", 40), "x"), (("p", 40), "y"), (("q", 40), "y")]
+    ladder = {"D": D, "U": [("x", "y")], "expectD": [], "expectU": [("x", "y")]}
+    return {"deep-chain-1200": deep, "ladder-2^40-paths": ladder}
+
+
+def run_stress(name, spec):
+    from pywhy_graphs import CPDAG
+    from pywhy_graphs.algorithms import pag as pagmod
+    G = CPDAG()
+    for a, b in spec["D"]:
+        G.add_edge(a, b, "directed")
+    for a, b in spec["U"]:
+        G.add_edge(a, b, "undirected")
+    old = signal.signal(signal.SIGALRM, _alarm)
+    signal.setitimer(signal.ITIMER_REAL, TIMEOUT_S)
+    try:
+        pagmod._apply_meek_rules(G)
+    except _Timeout:
+        return "does not terminate within %d s" % TIMEOUT_S
+    except BaseException as e:
+        return "raised %s" % type(e).__name__
+    finally:
+        signal.setitimer(signal.ITIMER_REAL, 0)
+        signal.signal(signal.SIGALRM, old)
+    if not all(G.has_edge(a, b, "directed") for a, b in spec["expectD"] + spec["D"]):
+        return "an expected orientation is missing"
+    if len(list(G.undirected_edges)) != len(spec["expectU"]):
+        return "undirected edges left: %d" % len(list(G.undirected_edges))
+    return None
+
+
 def run(ctx):
     ev, out = ctx["ev"], ctx["out"]
+    for _name, _spec in stress_cases().items():
+        _r = run_stress(_name, _spec)
+        ev.count("stress:" + _name + (":ok" if _r is None else ":BAD"))
+        if _r is not None:
+            out.violation({"kind": "stress", "name": _name},
+                          {"kind": "termination/closure on a large input", "detail": _r,
+                           "input": "see harness/c08.py stress_cases(): " + _name})
     ev.rule = ("patterns (computed by Lean) of every DAG on <=4 nodes (thorough: <=5), canonical and shuffled node/edge "
                "order, five label families, plus random DAGs on 5-7 nodes: result must equal the essential graph computed by "
                "the Lean brute-force decider; every PDAG on <=4 nodes over pair states {none,->,<-,--} that has a consistent "
